@@ -399,6 +399,11 @@ func (x *FnCtx) assumeTypeV(st *State, v Value, t types.Type) {
 	case SliceV:
 		x.axiom(x.typeInv(vv, t, nil))
 		st.pc = x.tb.And(st.pc, x.tb.Lt(vv.Arr, st.heap.A))
+		if sl, ok := t.Underlying().(*types.Slice); ok && isStruct(sl.Elem()) {
+			// the block holding the elements lies below the allocation counter
+			end := x.tb.Add(vv.Arr, x.tb.Mul(x.toInt(x.iadd(vv.Off, vv.Cap)), x.tb.IntC(slotSize(sl.Elem()))))
+			st.pc = x.tb.And(st.pc, x.tb.Lt(end, st.heap.A))
+		}
 	}
 }
 
@@ -504,47 +509,8 @@ func (x *FnCtx) store(fr *Frame, st *State, ptr Value, v Value, pt types.Type) {
 	x.abstracted(fmt.Sprintf("store through %T", ptr))
 }
 
-// sel is Select with ite/store push-down so that array-level operators
-// (copyarr, constarr) are eliminated at element reads.
-func (x *FnCtx) sel(a, i *Term) *Term {
-	key := [2]int{a.ID, i.ID}
-	if r, ok := x.selMemo[key]; ok {
-		return r
-	}
-	r := x.sel0(a, i)
-	x.selMemo[key] = r
-	return r
-}
-
-func (x *FnCtx) sel0(a, i *Term) *Term {
-	tb := x.tb
-	switch a.Op {
-	case "store":
-		j := a.Args[1]
-		if j == i {
-			return a.Args[2]
-		}
-		if j.IsConst() && i.IsConst() {
-			return x.sel(a.Args[0], i)
-		}
-		// nested arrays: expose the inner array so later reads can be expanded
-		if a.Sort.Elem.Kind == SArray {
-			return tb.Ite(tb.Eq(i, j), a.Args[2], x.sel(a.Args[0], i))
-		}
-		inner := x.sel(a.Args[0], i)
-		return tb.Ite(tb.Eq(i, j), a.Args[2], inner)
-	case "ite":
-		return tb.Ite(a.Args[0], x.sel(a.Args[1], i), x.sel(a.Args[2], i))
-	case "constarr":
-		return a.Args[0]
-	case "copyarr":
-		// copyarr(dst, dstOff, src, srcOff, n)
-		d, do, s, so, n := a.Args[0], a.Args[1], a.Args[2], a.Args[3], a.Args[4]
-		in := tb.And(x.le(do, i), x.lt(i, x.iadd(do, n)))
-		return tb.Ite(in, x.sel(s, x.iadd(x.isub(i, do), so)), x.sel(d, i))
-	}
-	return tb.Select(a, i)
-}
+// sel reads an array element (push-down of the read is done by TB.Select).
+func (x *FnCtx) sel(a, i *Term) *Term { return x.tb.Select(a, i) }
 
 // ---------- running a function body ----------
 
